@@ -1,31 +1,83 @@
 #!/usr/bin/env python3
-"""Render seeded/RESULTS.json as the markdown table of DESIGN.md §10."""
+"""Render self-test results (seeded/RESULTS.json, or several result files given as arguments, merged) as
+the markdown of DESIGN.md §10: summary, per-round counts, one row per seeded change, harmless rewrites."""
 import json
 import os
+import sys
+from collections import Counter
 
 HERE = os.path.dirname(os.path.abspath(__file__))
 VERIF = os.path.dirname(HERE)
-r = json.load(open(os.path.join(VERIF, "seeded", "RESULTS.json")))
-print("| seeded change | what it changes (needs) | target | reported with a failing input by | reported, no failing input found, by |")
-print("|---|---|---|---|---|")
-miss = []
-for mid in sorted(k for k in r if not k.startswith("_")):
+ROUND = {"a": 1, "b": 1, "c": 2, "d": 2, "e": 3, "f": 3, "g": 4, "h": 4, "i": 5, "j": 5}
+
+files = sys.argv[1:] or [os.path.join(VERIF, "seeded", "RESULTS.json")]
+r = {}
+for f in files:
+    part = json.load(open(f))
+    for k, v in part.items():
+        if k.startswith("_") and k in r:
+            r[k].update(v)
+        else:
+            r[k] = v
+
+ids = sorted(k for k in r if not k.startswith("_"))
+rows = []
+per_round = {}
+collateral_inp = collateral_no = 0
+errors = []
+for mid in ids:
     v = r[mid]
-    meta = json.load(open(os.path.join(VERIF, "seeded", mid, "meta.json")))
+    try:
+        meta = json.load(open(os.path.join(VERIF, "seeded", mid, "meta.json")))
+    except OSError:
+        meta = {}
     target = meta.get("property", mid.split("-")[0])
+    rnd = ROUND.get(mid.split("-")[1], 0)
+    st = per_round.setdefault(rnd, Counter())
+    st["changes"] += 1
     if not v.get("confirmed"):
-        print(f"| {mid} | NOT CONFIRMED ({v}) | {target} | | |")
+        st["not confirmed"] += 1
+        rows.append(f"| {mid} | NOT CONFIRMED | | |")
         continue
+    rep = v.get("reported_by", [])
     wi = v.get("with_failing_input", [])
-    nf = [p for p in v.get("reported_by", []) if p not in wi]
-    summary = meta.get("summary", "").replace("|", "/")[:150]
-    needs = meta.get("needs", "").replace("|", "/")[:110]
-    mark = "" if target in v.get("reported_by", []) else " **(target silent)**"
-    if target not in v.get("reported_by", []):
-        miss.append(mid)
-    print(f"| {mid} | {summary} ({needs}) | {target}{mark} | {', '.join(wi) or '—'} | {', '.join(nf) or '—'} |")
+    nf = [p for p in rep if p not in wi]
+    if v.get("machinery_errors"):
+        errors.append((mid, v["machinery_errors"]))
+    if target in rep:
+        st["target reports"] += 1
+    if target in wi:
+        st["target with input"] += 1
+    if wi:
+        st["some check with input"] += 1
+    collateral_inp += len([p for p in wi if p != target])
+    collateral_no += len([p for p in nf if p != target])
+    summary = " ".join(meta.get("summary", "").replace("|", "/").split())
+    if len(summary) > 118:
+        summary = summary[:115] + "…"
+    mark = "" if target in wi else (" *(target: no input)*" if target in rep else " **(target silent)**")
+    rows.append(f"| {mid}{mark} | {summary} | {', '.join(wi) or '—'} | {', '.join(nf) or '—'} |")
+
+n = sum(s["changes"] for s in per_round.values())
+print(f"Seeded changes: {n}; confirmed: {n - sum(s['not confirmed'] for s in per_round.values())}.")
 print()
-print("target property silent for:", miss or "none")
+print("| round | changes | target property reports | target with its own failing input | some check with a failing input |")
+print("|---|---|---|---|---|")
+tot = Counter()
+for rnd in sorted(per_round):
+    s = per_round[rnd]
+    tot.update(s)
+    print(f"| {rnd} | {s['changes']} | {s['target reports']} | {s['target with input']} | {s['some check with input']} |")
+print(f"| all | {tot['changes']} | {tot['target reports']} | {tot['target with input']} | {tot['some check with input']} |")
+print()
+print(f"Reports by checks other than the target's: {collateral_inp} with a failing input of their own, {collateral_no} without (`no-failing-input-found`).")
+print(f"Machinery errors (exit 2): {errors or 'none'}.")
 for k in ("_clean", "_harmless"):
     if k in r:
-        print(k, {kk: ("SILENT" if not vv.get("noisy") else sorted(vv["noisy"])) for kk, vv in r[k].items()})
+        noisy = {kk: sorted(vv["noisy"]) for kk, vv in r[k].items() if vv.get("noisy")}
+        print(f"{'Clean tree, seeds' if k == '_clean' else 'Behaviour-preserving rewrites'}: {len(r[k])} run, {len(r[k]) - len(noisy)} silent" + (f"; noisy: {noisy}" if noisy else "."))
+print()
+print("| seeded change | what it changes | reported with a failing input by | reported, no failing input found, by |")
+print("|---|---|---|---|")
+for row in rows:
+    print(row)
